@@ -51,6 +51,32 @@ Theorem C01_onehot_row : forall (P : prog R) i outs r,
 Proof. exact vjp_onehot. Qed.
 Print Assumptions C01_onehot_row.
 
+(* TOTALITY: a call with valid arguments IS accepted — every input expects a grad, one engine run
+   from the tensors to the inputs would succeed in the current state, the aggregator accepts the
+   Jacobian with a vector of the right length — for EVERY chunk size and both flags *)
+From TJ.proofs Require Import EntrySpec C13Proofs AcceptProofs.
+Theorem C01_accepts : forall (P : prog R) (A : list (list R) -> res (list R)) tensors ord k retain s v,
+  wf_prog P ->
+  valid_chunk k = true -> tensors <> [] -> NoDup tensors -> NoDup ord -> ord <> [] ->
+  (1 <= total P tensors)%nat ->
+  expects_all P ord = true ->
+  sweep_ok P s tensors ord = true ->
+  A (jacobian P tensors ord) = Ok v -> length v = total P ord ->
+  exists d' s', backward_model RN P A tensors ord k retain s = (Ok d', s').
+Proof. exact backward_accepts. Qed.
+Print Assumptions C01_accepts.
+(* and these are the ONLY ways an argument-valid call can fail *)
+Theorem C01_failure_causes : forall (P : prog R) A tensors ord k retain s e s',
+  wf_prog P -> backward_args_ok tensors ord k retain = true -> ord <> [] ->
+  (1 <= total P tensors)%nat ->
+  backward_model RN P A tensors ord k retain s = (Err e, s') ->
+  sweep_ok P s tensors ord = false \/
+  A (jacobian P tensors ord) = Err e \/
+  (exists v, A (jacobian P tensors ord) = Ok v /\ length v <> total P ord) \/
+  expects_all P ord = false.
+Proof. exact backward_failure_causes. Qed.
+Print Assumptions C01_failure_causes.
+
 (* non-vacuity (executable instance QN): a concrete accepted call.  y = (2 x0, 3 x1), Constant(1,10):
    x.grad goes from absent to (2, 30), for chunk sizes None, 1 and 3 *)
 From Coq Require Import QArith.
